@@ -873,7 +873,7 @@ def agg_schedules(tier, rnd):
                 for i, (k, kd) in enumerate(combo):
                     if i:
                         ops.append({"op": "adv", "ms": gs[i - 1]})
-                    ops.append({"op": "ev", "kind": kd, "k": k, "v": "v%d" % i})
+                    ops.append({"op": "ev", "kind": kd, "k": k, "v": "v%d" % (i % 2 if n == 3 else i)})
                 ops.append({"op": "adv", "ms": 12})
                 scs.append(ops)
     nrand = 400 if tier == "quick" else 20000
@@ -884,7 +884,9 @@ def agg_schedules(tier, rnd):
                 ops.append({"op": "adv", "ms": rnd.choice([0, 1, 1, 2, 3, 4, 5, 5, 6, 9])})
             burst = rnd.choice([1, 1, 1, 2, 3])
             for b in range(burst):
-                ops.append({"op": "ev", "kind": rnd.choice(["set", "set", "del"]), "k": rnd.choice(keys), "v": "v%d_%d" % (i, b)})
+                # (values repeat: a non-unique subscription delivers a value that is set again)
+                ops.append({"op": "ev", "kind": rnd.choice(["set", "set", "del"]), "k": rnd.choice(keys),
+                            "v": rnd.choice(["x", "x", "y", "v%d_%d" % (i, b)])})
         ops.append({"op": "adv", "ms": 12})
         scs.append(ops)
     return scs
